@@ -89,7 +89,9 @@ func defaultFsGen() *FsGen {
 	return &FsGen{
 		// "ab", "a.b" and "a2": siblings whose names are string prefixes of one another (a/ab, a/a2 …)
 		// exercise every place that compares paths as strings instead of by component
-		Names:    []string{"a", "b", "c", "d", "ab", "a.b", "a2"},
+		// ".a": a name with a leading dot is an ordinary name (a normalisation that trims "./" as a
+		// character set, or treats dot files specially, would alias it with "a")
+		Names:    []string{"a", "b", "c", "d", "ab", "a.b", "a2", ".a"},
 		MaxDepth: 3,
 		Contents: [][]byte{{}, []byte("a"), []byte("hello"), {0, 255, 195, 169, 10, 47, 46, 46, 92, 34, 1, 2, 3, 4, 5, 6, 7}, big, []byte("0123456789")},
 		ClimbPct: 12,
